@@ -8,6 +8,7 @@ CONSTANTS
   RefE <- MCRefE
   RefAttrSeq <- MCRefAttr
   Inits <- MCInits
+  WithFork = TRUE
   WithSub = FALSE
   Depth = 4
   Emit = TRUE
